@@ -408,6 +408,7 @@ COMMON_ASSUMPTIONS = [
 ]
 ASSUMPTIONS = {}
 RULES = {
+    "C15": "script = 2..12 operations on ONE solver object (make_solver<amg|relaxation, run-time solver>, all 9 solver types, both preconditioning sides, restart lengths 2..30) out of solve / solve with alternative matrix / precond.apply / rebuild and failing variants (zero, NaN, Inf, overflowing right-hand sides or guesses, zero alternative matrix, maxiter 1..4, preconditioner wrapper that throws / writes NaN / writes Inf at its k-th call); model: a freshly constructed object (rebuilds replayed) executes the same single operation, results compared bitwise incl. exception type; non-trivial = >=2 operations; distinct by hash(matrix, script, configuration)",
     "C19": "case = (format mm_sparse|mm_dense|bin_crs|bin_dense, value type double|float|complex|integer, index type, shape, row range, mode); modes: fault-free round trip (full + row range, bitwise vs the written model, symmetric storage), explicit fault ops on the image (truncate/flip/set/zero_tail/drop_line/dup_line, 1-3 per case, biased to banner/size line/index fields/ptr section), exhaustive truncation sweep of one small image (every byte offset), value-kind and storage-kind mismatch, corrupted banner keyword, inconsistent size fields; evaluations counts cases (a truncation sweep is one case with one read per byte offset, reads are in counters.damaged_reads); non-trivial = image actually damaged / non-empty matrix; distinct by hash(image bytes, ops, range)",
     "C10": "world = (valid input incl. 1x1/diagonal/disconnected/positive-offdiagonal/Dirichlet-row/n<coarse_enough/max_levels=1, kind in amg|relaxation-as-preconditioner|zero-copy amg|skyline_lu, run-time configuration, nt, pre-history of 0-3 unrelated solves); each world is executed under 4 simulated heaps (clean + 3 drawn from fill 00/ff/aa/snan/random x LIFO recycling x address shift) plus a ledger pass, and once per world under ASan+UBSan in the asan stage; non-trivial = degenerate input or >=2 levels; distinct by hash(matrix, configuration)",
     "C09": "world = (component, matrix family/size/seed, nt, schedule strategy+seed); a case is non-trivial when nt>=2, the world under test took >=1 deviation from the canonical schedule and the matrix has >=2 rows; distinct by hash(matrix, component, nt, deviation list, configuration)",
